@@ -22,6 +22,29 @@ CLAIMS = {
         note=TRUSTED + " bufApp is verified against its own contract and used modularly in CleanPath."),
 }
 
+CLAIMS["C10"] = dict(
+    technique="contract-based deductive verification: WP over go/ssa with loop invariants and axiomatised spec functions, SMT (z3/cvc5); bounded RAC search only to find witnesses",
+    text=("Proof for all pattern strings and all limits: parseRoute never indexes out of range and terminates; soundness, one postcondition per grammar clause "
+          "under err == nil (first slash; every '*' in the path and followed by '{'; every '{' opens a non-empty name closed by the next '}', free of '/','*','{' "
+          "(and '.' in hostnames), within the name-length limit and followed by end, '/' (or '.' in hostnames); returned count == number of '{' and within the "
+          "parameter limit; two catch-alls never separated by fewer than two bytes; hostname part: LDH alphabet, no leading/trailing '.'/'-', no '.-', '-.', '..', "
+          "not all-numeric, label <= 63, total <= 255); completeness for path-only patterns as behaviour `requires validPath(...) ensures err == nil` "
+          "(every error return proved unreachable). Not decided: routability of accepted patterns (needs the matcher), completeness for hostname patterns, "
+          "parseWildcard's agreement with the validator."),
+    design_ref="DESIGN.md §4 C10, §9",
+    note=TRUSTED + " Assumed contracts: strings.IndexByte, strings.HasPrefix, fmt.Errorf. A genuine defect found by the star-brace obligation was repaired (known_findings.json).")
+CLAIMS["C14"] = dict(
+    technique="contract-based deductive verification: representation invariant over ghost state of the wrapped writer, interface contracts, SMT",
+    text=("Proof by induction over methods (so for every call sequence): reset establishes and WriteHeader, Write, WriteString, ReadFrom, FlushError preserve the "
+          "invariant 'size == -1 iff no final status was forwarded; otherwise size == bytes accepted by the wrapped writer; at most one final status forwarded and it "
+          "is the recorded status'; Status/Written/Size are then the property's definitions; informational codes are forwarded without changing state; a second "
+          "final WriteHeader forwards nothing; Write/WriteString forward the header first and add exactly the accepted count even on error; ReadFrom has one "
+          "postcondition for the io.ReaderFrom fast path and the io.CopyBuffer fallback; capability methods delegate iff the wrapped writer offers the capability and "
+          "otherwise return an error that Is http.ErrNotSupported; flush forwards the header first. Not decided: byte order of the body, the Context helpers "
+          "String/Blob/Stream/Redirect (not yet under contract)."),
+    design_ref="DESIGN.md §4 C14, §9",
+    note=TRUSTED + " Assumed interface contracts for foreign http.ResponseWriter / io.ReaderFrom / http.Flusher / Hijacker implementations and for io.WriteString, io.CopyBuffer (foxvc/externs/http.spec). ReadFrom is verified for partial correctness (the sync.Pool type assertion is assumed). A genuine defect in ReadFrom was repaired (known_findings.json).")
+
 NOT_APPLICABLE = {
     "C01": "not yet under contract in this revision (matcher mechanisms planned, DESIGN.md §4 C01)",
     "C02": "not yet under contract in this revision (counters/guards planned, DESIGN.md §4 C02)",
